@@ -74,6 +74,23 @@ INFO = {
              "checkpoint indices with different digit counts in one directory (9999 and 10000)"),
     "C19b": ("3D characteristic function: the far-field guard of the smoothed Heaviside reads `abs(phi) >= blend_width`",
              "3D, a cell whose level set equals +blend_width exactly"),
+    # ---- round 3 (seeded/<id>c)
+    "C02c": ("stable time step: velocity magnitude computed as |sum_i u_i| (sum and abs swapped, `no temporaries` rewrite) in the helper shared by all simulators",
+             "flow / free-stream direction with components of opposite sign in an advection-limited run (effective Courant number O(1): convergence lost)"),
+    "C04c": ("3D advection: full clear of the flux buffer dropped, first face kernel overwrites, ghost-zone reset of width 1 copied from the diffusion flux (ENO3 reaches 2)",
+             "3D passive transport with stale data in the second boundary layer of the shared scratch buffer, e.g. dt = compute_stable_timestep(); time_step(dt)"),
+    "C05c": ("3D vorticity update from penalised velocity, y component: x offsets of the two unpenalised velocity_z samples swapped",
+             "3D, penalised-velocity update, z-component of the unpenalised velocity varying along x"),
+    "C07c": ("2D scalar spreading multiplies the marker's weights in place through a view (`no temporary`): the caller's interp_weights are overwritten by F_i * w_i",
+             "2D, n_components=1, the same weights reused after a spreading call (second spread, or spread then interpolate), forces != 1"),
+    "C12c": ("3D curl kernel, y component written in accumulate form (`curl_y = curl_y + ...`) while x and z overwrite",
+             "output array already holding non-zero y data at interior cells (second and later calls into the same buffer, e.g. simulator step >= 2)"),
+    "C14c": ("2D ENO3 y-back flux chooses its upwind branch from the velocity sum of the upper face (v[j]+v[j+1]) instead of its own (v[j]+v[j-1])",
+             "2D, y-velocity changing sign along y inside the vorticity support"),
+    "C15c": ("3D vector-field interpolation and spreading kernels compiled with numba parallel=True / prange over markers when num_lag_nodes >= 2048",
+             "3D vector communicator, >= 2048 markers with overlapping windows, more than one numba thread (data race in the spreading)"),
+    "C20c": ("passive-transport simulator forms dt/dx and nu dt/dx^2 from an inverse spacing grid_size[0]/x_range (y or z cell count instead of x)",
+             "PassiveTransportFlowSimulator on a non-square / non-cubic grid (grid_size[0] != grid_size[-1])"),
 }
 
 
@@ -91,7 +108,7 @@ def main():
                 ev.update(json.load(open(os.path.join(d, evn))))
         meta = {
             "breaks_property": sid[:3],
-            "round": 2 if sid.endswith("b") else 1,
+            "round": 3 if sid.endswith("c") else 2 if sid.endswith("b") else 1,
             "change": what,
             "files": files,
             "needs_to_manifest": needs,
